@@ -127,15 +127,15 @@ Fixpoint str_maybe_numeric (s : string) : bool :=
       is_digit a || Ascii.eqb a "n" || Ascii.eqb a "N" || Ascii.eqb a "j" || Ascii.eqb a "J" || str_maybe_numeric r
   end.
 
-(** element -> float64.  [native_c]: the source is a complex128 ndarray (numpy then discards the imaginary part
-    with a ComplexWarning); a Python complex object raises TypeError instead. *)
-Definition to_f (native_c : bool) (s : scalar) : cres float :=
+(** element -> float64.  Reached only when neither input is a complex object (np.iscomplexobj), so a complex
+    element here is a Python complex inside an object / str mixture: float() raises TypeError. *)
+Definition to_f (s : scalar) : cres float :=
   match s with
   | SNone => COk nan
   | SBool b => COk (b2f b)
   | SInt z => match Z2f z with Some f => COk f | None => CUnm end
   | SFloat f => COk f
-  | SCplx re im => if native_c then COk re else CFail
+  | SCplx re im => CFail
   | SStr s => if str_maybe_numeric s then CUnm else CFail
   | SObj => CFail
   end.
@@ -214,7 +214,7 @@ Definition infer_dtype (data : list scalar) : option dtype :=
   else if existsb is_int data then Some DInt
   else match data with [] => Some DFloat | _ => Some DBool end.
 
-(** np.iscomplexobj(expected) — evaluated OUTSIDE the try block: a ragged nest raises ValueError *)
+(** np.iscomplexobj(x) — evaluated OUTSIDE the try block: a ragged nest raises ValueError *)
 Definition iscomplexobj (x : tree) : res bool :=
   match nd_of x with
   | (Some dt, _) => Ok (dtype_eqb dt DCplx)
@@ -224,14 +224,11 @@ Definition iscomplexobj (x : tree) : res bool :=
   | (None, NdUnm) => Unmodelled
   end.
 
-Definition is_native_c (src : option dtype) : bool :=
-  match src with Some DCplx => true | _ => false end.
-
 (** np.array(x, dtype=float) / np.array(x, dtype=complex): shape and cast elements *)
-Definition cast_with {A} (f : bool -> scalar -> cres A) (x : tree) : cres (list nat * list A) :=
+Definition cast_with {A} (f : scalar -> cres A) (x : tree) : cres (list nat * list A) :=
   match nd_of x with
-  | (src, NdOk sh data) =>
-      match cast_all (f (is_native_c src)) data with
+  | (_, NdOk sh data) =>
+      match cast_all f data with
       | COk l => COk (sh, l)
       | CFail => CFail
       | CUnm => CUnm
@@ -266,9 +263,7 @@ Definition atol_exc (a : float) : option exc :=
   else if PrimFloat.eqb a fzero || is_infinity a then Some EOverflow
   else None.
 
-Definition is_scalar_shape (sh : list nat) : bool := match sh with [] => true | _ => false end.
-
-Definition cv_core {A} (close : A -> A -> bool) (neg : A -> A) (o : cvopts) (is_c : bool)
+Definition cv_core {A} (close : A -> A -> bool) (neg : A -> A) (o : cvopts)
            (xe xc : cres (list nat * list A)) : res bool :=
   match xe with
   | CFail => Ok false
@@ -282,23 +277,22 @@ Definition cv_core {A} (close : A -> A -> bool) (neg : A -> A) (o : cvopts) (is_
           else match atol_exc (atol o) with
                | Some k => Raise k
                | None =>
-                   if judge close neg (cv_phase o) dc de then Ok true
-                   else if is_c && is_scalar_shape she then Raise EType
-                        (* the failure message formats float(xptd) for 0-d arrays: TypeError on complex *)
-                   else Ok false
+                   Ok (judge close neg (cv_phase o) dc de)
                end
       end
   end.
 
+(** np.iscomplexobj(expected) or np.iscomplexobj(computed)   (short-circuit; both outside the try block) *)
+Definition iscomplex_pair (e c : tree) : res bool :=
+  bind (iscomplexobj e) (fun ce => if ce then Ok true else iscomplexobj c).
+
 Definition compare_values (o : cvopts) (e c : tree) : res bool :=
   if passnone o && is_py_none e && is_py_none c then Ok true
-  else bind (iscomplexobj e) (fun cx =>
+  else bind (iscomplex_pair e c) (fun cx =>
     if cx then
-      cv_core (isclose_c (atol o) (rtol o) (equal_nan o)) neg_c o true
-              (cast_with (fun _ => to_c) e) (cast_with (fun _ => to_c) c)
+      cv_core (isclose_c (atol o) (rtol o) (equal_nan o)) neg_c o (cast_with to_c e) (cast_with to_c c)
     else
-      cv_core (isclose_f (atol o) (rtol o) (equal_nan o)) PrimFloat.opp o false
-              (cast_with to_f e) (cast_with to_f c)).
+      cv_core (isclose_f (atol o) (rtol o) (equal_nan o)) PrimFloat.opp o (cast_with to_f e) (cast_with to_f c)).
 
 (* ------------------------------------------------------------------------------------------ *)
 (** * compare (exact) *)
@@ -414,13 +408,12 @@ Definition exact_ok (s : scalar) (c : tree) : res bool :=
 Definition is_none_tree (c : tree) : bool := match c with TSc _ SNone => true | _ => false end.
 
 (** the isinstance dispatch on a scalar [expected], in the code's order:
-    (str, int, bool, complex) exact; float / np.number through compare_values; None by identity;
-    anything else (np.bool_) is "not understood" *)
+    (str, int, bool, complex, np.bool_) exact; float / np.number through compare_values; None by identity *)
 Definition leaf_ok (o : lopts) (ph : bool) (np : bool) (s : scalar) (c : tree) : res bool :=
   match s with
   | SStr _ | SCplx _ _ => exact_ok s c
   | SInt _ => if np then compare_values (cv_of o ph) (TSc np s) c else exact_ok s c
-  | SBool _ => if np then Ok false else exact_ok s c
+  | SBool _ => exact_ok s c
   | SFloat _ => compare_values (cv_of o ph) (TSc np s) c
   | SNone => Ok (is_none_tree c)
   | SObj => Ok false
